@@ -14,6 +14,7 @@ package vsched
 import (
 	"bytes"
 	"fmt"
+	"reflect"
 	"runtime"
 	"sort"
 	"strconv"
@@ -490,7 +491,46 @@ func cmpAny(a, b any) (int, bool) {
 			return strings.Compare(x.String(), y.String()), true
 		}
 	}
+	// plain value types (structs/arrays of strings and numbers): their printed
+	// form is deterministic; anything containing pointers is not.
+	if pureValue(reflect.TypeOf(a)) && pureValue(reflect.TypeOf(b)) {
+		return strings.Compare(fmt.Sprintf("%T%v", a, a), fmt.Sprintf("%T%v", b, b)), true
+	}
 	return 0, false
+}
+
+func pureValue(t reflect.Type) bool {
+	if t == nil {
+		return false
+	}
+	switch t.Kind() {
+	case reflect.Bool, reflect.Int, reflect.Int8, reflect.Int16, reflect.Int32, reflect.Int64, reflect.Uint, reflect.Uint8, reflect.Uint16, reflect.Uint32, reflect.Uint64, reflect.Uintptr, reflect.Float32, reflect.Float64, reflect.String:
+		return true
+	case reflect.Array:
+		return pureValue(t.Elem())
+	case reflect.Struct:
+		for i := 0; i < t.NumField(); i++ {
+			if !pureValue(t.Field(i).Type) {
+				return false
+			}
+		}
+		return true
+	}
+	return false
+}
+
+// SortAny sorts keys deterministically if they are all mutually comparable by
+// the rules of MapKeys; it reports whether it could.
+func SortAny(keys []any) bool {
+	sortable := true
+	sort.SliceStable(keys, func(i, j int) bool {
+		c, ok := cmpAny(keys[i], keys[j])
+		if !ok {
+			sortable = false
+		}
+		return c < 0
+	})
+	return sortable
 }
 
 func cmpInt(a, b int64) int {
